@@ -1,4 +1,5 @@
 import Proofs.Lemmas.ReqSolo
+import Proofs.Lemmas.ReqSite
 import Generated.C11Superglobals
 /-!
 # C11 — concurrent HTTP requests do not interfere: a response depends on its request
@@ -27,6 +28,14 @@ model (`C11_shared_cache_leaks`, `C11_first_read_leaks`) and replayed against th
 with gates on every run, and `C11_noninterference_partial` / `C11_noninterference_generated`
 state what does hold on this tree: a request whose steps stay off the package-level caches
 (request object, locals, parameters, closures) is not affected by any other request.
+
+Values a request *creates* (closures, generators, objects) are the second half: the handler's
+syntax tree is shared by all requests, so such a value must live in a fresh object, not in the
+syntax node that made it.  `Model.ReqSite` has the place where a closure's environment lives
+as a parameter (`perEvaluation | inNode`); `C11_site_noninterference` states the isolation
+under `perEvaluation`, `C11_node_slot_leaks` the leak under `inNode`, and the
+regenerated fact `nodeWrites` (every store of an evaluation-time method of package `node` into
+its own receiver) decides which one the analysed tree has (`C11_site_noninterference_generated`).
 
 Trusted, not proved: `net/http` hands every request its own `*http.Request`; the Go memory
 model (steps are atomic in the model; the real caches are plain pointers — the parallel-load
@@ -241,6 +250,79 @@ theorem C11_noninterference_generated (prog : Rid → List Step) (data : Rid →
   rw [C11_noninterference_partial (generatedWorld prog data env) r hp sched hdone, C11_solo_refines_spec]
   rfl
 
+/-! ## Values made per request: closures (generators, objects) and the shared syntax tree -/
+
+section Site
+open Model.ReqSite Proofs.ReqSite
+
+/-- **Projection** for values made per evaluation: a request all of whose closure literals keep
+their environment in the fresh closure object is, after *any* schedule (any number of requests
+evaluating and calling the same literals, any interleaving, complete or not), in the state its
+own turns alone produce. -/
+theorem C11_site_noninterference_prefix (w : Model.ReqSite.World) (r : Rid)
+    (hp : PrivProg w.scope (w.prog r)) (sched : List Rid) :
+    (Model.ReqSite.run w (Model.ReqSite.init w) sched).req r
+      = (Model.ReqSite.run w (Model.ReqSite.init w) (List.replicate (sched.count r) r)).req r :=
+  Proofs.ReqSite.sim_run w r sched _ _ rfl ⟨hp, by intro slot c h; simp [Model.ReqSite.init] at h⟩
+
+/-- **Isolation of per-request values**: under every schedule that lets it finish, the request
+answers what it answers alone, which is the specification's function of its own datum — every
+call of a closure it made observes its own `$this` / captured variables.  No assumption on the
+other requests. -/
+theorem C11_site_noninterference (w : Model.ReqSite.World) (r : Rid)
+    (hp : PrivProg w.scope (w.prog r)) (sched : List Rid) (hdone : (w.prog r).length ≤ sched.count r) :
+    Model.ReqSite.response (Model.ReqSite.run w (Model.ReqSite.init w) sched) r = Model.ReqSite.soloResponse w r ∧
+    Model.ReqSite.soloResponse w r = Spec.ReqSite.respond (w.env r) (w.prog r) := by
+  constructor
+  · unfold Model.ReqSite.response Model.ReqSite.soloResponse Model.ReqSite.solo Model.ReqSite.response
+    rw [C11_site_noninterference_prefix w r hp sched]
+    have := run_saturate w r (sched.count r) (Model.ReqSite.init w) (by simpa [Model.ReqSite.init] using hdone)
+    rw [this]
+    rfl
+  · unfold Model.ReqSite.soloResponse Model.ReqSite.solo Model.ReqSite.response Spec.ReqSite.respond
+    exact solo_spec w.scope (w.env r) (w.prog r) { pc := w.prog r } [] rfl
+      ⟨hp, by intro slot c h; simp at h⟩ (by intro slot; simp) (by intro slot c h; simp at h)
+      w rfl r rfl (Model.ReqSite.init w) rfl
+
+/-- one closure literal in a class method, two requests: make the closure, (gate,) call it -/
+def siteWorld (sc : SiteScope) : Model.ReqSite.World where
+  scope := fun _ => sc
+  prog := fun _ => [.mk 0 0, .gate, .call 0, .write]
+  env := fun r => 7 + r
+
+/-- **Negation witness** (the seeded class of change, `f.ctx = ctx; return NewFuncValue(f)`):
+with the environment kept in the syntax node, request 0 parked between making and calling its
+closure while request 1 evaluates the same literal answers with request 1's datum; alone it
+answers with its own. -/
+theorem C11_node_slot_leaks :
+    Model.ReqSite.response (Model.ReqSite.run (siteWorld .inNode) (Model.ReqSite.init (siteWorld .inNode)) [0, 0, 1, 1, 1, 1, 0, 0]) 0 = [some 8] ∧
+    Model.ReqSite.soloResponse (siteWorld .inNode) 0 = [some 7] ∧
+    Model.ReqSite.response (Model.ReqSite.run (siteWorld .perEvaluation) (Model.ReqSite.init (siteWorld .perEvaluation)) [0, 0, 1, 1, 1, 1, 0, 0]) 0 = [some 7] := by
+  decide
+
+/-- **Obligation + instance for the analysed tree**: no evaluation-time method of a syntax node
+of package `node` stores into its own receiver, except the listed memos of process-wide
+definitions and the cells that are shared by the language's design (regenerated every run);
+hence every site keeps its values per evaluation and every request is isolated with respect
+to the closures it makes, under every schedule. -/
+theorem C11_site_noninterference_generated :
+    Generated.C11Superglobals.facts.nodeWriteViolations = [] ∧
+    ∀ (prog : Rid → List Model.ReqSite.Step) (env : Rid → Model.ReqSite.Val) (r : Rid) (sched : List Rid),
+      (prog r).length ≤ sched.count r →
+      let w : Model.ReqSite.World := { scope := scopeOf Generated.C11Superglobals.facts, prog := prog, env := env }
+      Model.ReqSite.response (Model.ReqSite.run w (Model.ReqSite.init w) sched) r = Spec.ReqSite.respond (env r) (prog r) := by
+  have hv : Generated.C11Superglobals.facts.nodeWriteViolations = [] := by decide
+  refine ⟨hv, ?_⟩
+  intro prog env r sched hdone w
+  have hp : PrivProg w.scope (w.prog r) := by
+    intro s slot _
+    show scopeOf Generated.C11Superglobals.facts s = .perEvaluation
+    simp [scopeOf, hv]
+  have h := C11_site_noninterference w r hp sched hdone
+  rw [h.1, h.2]
+
+end Site
+
 /-! ## Non-vacuity -/
 
 /-- a world with per-request storage, three requests, each reading `$_GET`, `$_REQUEST`, writing `$_SESSION` -/
@@ -278,5 +360,16 @@ example : (run leakWorld (run leakWorld (init leakWorld) [0, 0, 0, 0, 0]) [1, 1,
 example : Generated.C11Superglobals.facts.cells.length = 9 ∧
     Generated.C11Superglobals.facts.handlerResets = true ∧
     Generated.C11Superglobals.facts.entries.any (fun e => e.runsScript) = true := by decide
+
+/-- `C11_site_noninterference` applies: three requests through one closure literal, all made before any is called -/
+example : Proofs.ReqSite.PrivProg (siteWorld .perEvaluation).scope ((siteWorld .perEvaluation).prog 2) ∧
+    Model.ReqSite.response (Model.ReqSite.run (siteWorld .perEvaluation) (Model.ReqSite.init (siteWorld .perEvaluation))
+      [0, 0, 1, 1, 2, 2, 2, 2, 1, 1, 0, 0]) 0 = [some 7] ∧
+    Spec.ReqSite.respond 7 ((siteWorld .perEvaluation).prog 0) = [some 7] := by
+  refine ⟨fun _ _ _ => rfl, by decide, by decide⟩
+
+/-- the node-write facts are not empty: the translator sees the stores of the definition memos and of the generator states -/
+example : Generated.C11Superglobals.facts.nodeWrites.any (fun w => w.parserBuilt && w.typ == "NewExpression") = true ∧
+    Generated.C11Superglobals.facts.nodeWrites.any (fun w => !w.parserBuilt && w.typ == "FuncYieldStackState") = true := by decide
 
 end C11
